@@ -11,6 +11,7 @@ import (
 	"go/parser"
 	"go/token"
 	"go/types"
+	"io"
 	"os"
 	"os/exec"
 	"path/filepath"
@@ -227,6 +228,15 @@ func generateChecked(desc string, workDir string) (src []byte, pkgName string, r
 	if fname != pkgName+".go" {
 		return src, pkgName, false, fmt.Errorf("the generated file is named %q but declares package %q", fname, pkgName)
 	}
+	// the file must belong to its package as the go tool sees it: not a _test.go file, not excluded by a _GOOS/_GOARCH suffix
+	bctx := build.Default
+	bctx.OpenFile = func(string) (io.ReadCloser, error) { return io.NopCloser(bytes.NewReader(src)), nil }
+	if strings.HasSuffix(fname, "_test.go") {
+		return src, pkgName, false, fmt.Errorf("the generated file is named %q: the go tool takes it for a test file, the package has no other source", fname)
+	}
+	if ok, merr := bctx.MatchFile(dir, fname); merr != nil || !ok {
+		return src, pkgName, false, fmt.Errorf("the generated file %q is excluded from its package by the go tool (file-name or build constraints; %v)", fname, merr)
+	}
 	if want := lettersDigitsLower(tree.Name); lettersDigitsLower(pkgName) != want || pkgName != strings.ToLower(pkgName) {
 		return src, pkgName, false, fmt.Errorf("package name %q is not derived from the interface name %q (letters and digits %q)", pkgName, tree.Name, want)
 	}
@@ -396,6 +406,14 @@ func TestC07Matrix(t *testing.T) {
 		"interface org.example.typeless\nmethod M() -> ()\nerror Plain\nerror WithArgs (a: int)\n",
 		"interface org.example.with-dash.sub-x\nmethod M() -> ()\n",
 		"interface Org.Example.UPPER\nmethod M() -> ()\n",
+		// names whose last word is something the go tool reads as a file-name constraint (_test, _GOOS, _GOARCH): the
+		// one file that is written must still be a non-test source of its package on this platform
+		"interface org.example.disk-test\nmethod M() -> ()\n",
+		"interface org.example.disk-windows\nmethod M() -> ()\n",
+		"interface com.example.Emulator-arm64\nmethod M() -> ()\n",
+		"interface org.example.run-linux-amd64\nmethod M() -> ()\n",
+		"interface org.example.x-js.y-wasm\nmethod M() -> ()\n",
+		"interface org.example.test\nmethod M() -> ()\n",
 		"interface xn--lgbbat1ad8j.example.algeria\nmethod M() -> ()\n",
 		"interface a.b\nmethod M("+kw.String()+") -> ("+kw.String()+")\nerror E2 ("+kw.String()+")\ntype K ("+kw.String()+")\n",
 		"# doc with `backticks` and ``\ninterface a.b\n# `\nmethod M() -> ()\n",
